@@ -512,120 +512,111 @@ def propsOp (k : List Nat) (s : Stack) : Option Parsed :=
      | none => none)
   | none => none
 
-inductive OpResult where
-  | ok (p : Parsed)
-  /-- `Err`: the operator is skipped -/
-  | skip
-  /-- `BI`: handled by `parse_inline_image` on the token stream -/
-  | inlineImage
-
-def ofOpt : Option Parsed → OpResult
-  | some p => .ok p
-  | none => .skip
-
-/-- `parse_operator(op, operands)` (keywords as byte lists) -/
-def parseOperator (op : List Nat) (s : Stack) : OpResult :=
+/-- `parse_operator(op, operands)` for every operator except `BI` (keywords as byte lists);
+    `none` = `Err`: the operator is skipped -/
+def parseOp (op : List Nat) (s : Stack) : Option Parsed :=
   match op with
-  | [66, 84] => .ok ⟨[66, 84], []⟩                  -- BT
-  | [69, 84] => .ok ⟨[69, 84], []⟩                  -- ET
-  | [84, 99] => ofOpt (numOp [84, 99] 1 s)          -- Tc
-  | [84, 119] => ofOpt (numOp [84, 119] 1 s)        -- Tw
-  | [84, 122] => ofOpt (numOp [84, 122] 1 s)        -- Tz
-  | [84, 76] => ofOpt (numOp [84, 76] 1 s)          -- TL
+  | [66, 84] => some ⟨[66, 84], []⟩                  -- BT
+  | [69, 84] => some ⟨[69, 84], []⟩                  -- ET
+  | [84, 99] => (numOp [84, 99] 1 s)          -- Tc
+  | [84, 119] => (numOp [84, 119] 1 s)        -- Tw
+  | [84, 122] => (numOp [84, 122] 1 s)        -- Tz
+  | [84, 76] => (numOp [84, 76] 1 s)          -- TL
   | [84, 102] =>                                    -- Tf
     (match popNumber s with
      | some (size, s') =>
        (match popName s' with
-        | some (n, _) => .ok ⟨[84, 102], [.name n, size]⟩
-        | none => .skip)
-     | none => .skip)
-  | [84, 114] => ofOpt (intOp [84, 114] s)          -- Tr
-  | [84, 115] => ofOpt (numOp [84, 115] 1 s)        -- Ts
-  | [84, 100] => ofOpt (numOp [84, 100] 2 s)        -- Td
-  | [84, 68] => ofOpt (numOp [84, 68] 2 s)          -- TD
-  | [84, 109] => ofOpt (numOp [84, 109] 6 s)        -- Tm
-  | [84, 42] => .ok ⟨[84, 42], []⟩                  -- T*
-  | [84, 106] => ofOpt (strOp [84, 106] s)          -- Tj
+        | some (n, _) => some ⟨[84, 102], [.name n, size]⟩
+        | none => none)
+     | none => none)
+  | [84, 114] => (intOp [84, 114] s)          -- Tr
+  | [84, 115] => (numOp [84, 115] 1 s)        -- Ts
+  | [84, 100] => (numOp [84, 100] 2 s)        -- Td
+  | [84, 68] => (numOp [84, 68] 2 s)          -- TD
+  | [84, 109] => (numOp [84, 109] 6 s)        -- Tm
+  | [84, 42] => some ⟨[84, 42], []⟩                  -- T*
+  | [84, 106] => (strOp [84, 106] s)          -- Tj
   | [84, 74] =>                                     -- TJ
     (match popArray s with
      | some (ts, _) =>
        (match textArray ts with
-        | some es => .ok ⟨[84, 74], [.textArr es]⟩
-        | none => .skip)
-     | none => .skip)
-  | [39] => ofOpt (strOp [39] s)                    -- '
+        | some es => some ⟨[84, 74], [.textArr es]⟩
+        | none => none)
+     | none => none)
+  | [39] => (strOp [39] s)                    -- '
   | [34] =>                                         -- "
     (match popString s with
      | some (t, s1) =>
        (match popNumber s1 with
         | some (ac, s2) =>
           (match popNumber s2 with
-           | some (aw, _) => .ok ⟨[34], [aw, ac, t]⟩
-           | none => .skip)
-        | none => .skip)
-     | none => .skip)
-  | [113] => .ok ⟨[113], []⟩                        -- q
-  | [81] => .ok ⟨[81], []⟩                          -- Q
-  | [99, 109] => ofOpt (numOp [99, 109] 6 s)        -- cm
-  | [119] => ofOpt (numOp [119] 1 s)                -- w
-  | [74] => ofOpt (intOp [74] s)                    -- J
-  | [106] => ofOpt (intOp [106] s)                  -- j
-  | [77] => ofOpt (numOp [77] 1 s)                  -- M
+           | some (aw, _) => some ⟨[34], [aw, ac, t]⟩
+           | none => none)
+        | none => none)
+     | none => none)
+  | [113] => some ⟨[113], []⟩                        -- q
+  | [81] => some ⟨[81], []⟩                          -- Q
+  | [99, 109] => (numOp [99, 109] 6 s)        -- cm
+  | [119] => (numOp [119] 1 s)                -- w
+  | [74] => (intOp [74] s)                    -- J
+  | [106] => (intOp [106] s)                  -- j
+  | [77] => (numOp [77] 1 s)                  -- M
   | [100] =>                                        -- d
     (match popNumber s with
      | some (phase, s1) =>
        (match popArray s1 with
         | some (ts, _) =>
           (match dashArray ts with
-           | some es => .ok ⟨[100], [.nums es, phase]⟩
-           | none => .skip)
-        | none => .skip)
-     | none => .skip)
-  | [114, 105] => ofOpt (nameOp [114, 105] s)       -- ri
-  | [105] => ofOpt (numOp [105] 1 s)                -- i
-  | [103, 115] => ofOpt (nameOp [103, 115] s)       -- gs
-  | [109] => ofOpt (numOp [109] 2 s)                -- m
-  | [108] => ofOpt (numOp [108] 2 s)                -- l
-  | [99] => ofOpt (numOp [99] 6 s)                  -- c
-  | [118] => ofOpt (numOp [118] 4 s)                -- v
-  | [121] => ofOpt (numOp [121] 4 s)                -- y
-  | [104] => .ok ⟨[104], []⟩                        -- h
-  | [114, 101] => ofOpt (numOp [114, 101] 4 s)      -- re
-  | [83] => .ok ⟨[83], []⟩                          -- S
-  | [115] => .ok ⟨[115], []⟩                        -- s
-  | [102] => .ok ⟨[102], []⟩                        -- f
-  | [70] => .ok ⟨[102], []⟩                         -- F = Fill
-  | [102, 42] => .ok ⟨[102, 42], []⟩                -- f*
-  | [66] => .ok ⟨[66], []⟩                          -- B
-  | [66, 42] => .ok ⟨[66, 42], []⟩                  -- B*
-  | [98] => .ok ⟨[98], []⟩                          -- b
-  | [98, 42] => .ok ⟨[98, 42], []⟩                  -- b*
-  | [110] => .ok ⟨[110], []⟩                        -- n
-  | [87] => .ok ⟨[87], []⟩                          -- W
-  | [87, 42] => .ok ⟨[87, 42], []⟩                  -- W*
-  | [67, 83] => ofOpt (nameOp [67, 83] s)           -- CS
-  | [99, 115] => ofOpt (nameOp [99, 115] s)         -- cs
-  | [83, 67] => .ok ⟨[83, 67], [.nums (popColorComponents s []).1]⟩          -- SC
-  | [83, 67, 78] => .ok ⟨[83, 67], [.nums (popColorComponents s []).1]⟩      -- SCN
-  | [115, 99] => .ok ⟨[115, 99], [.nums (popColorComponents s []).1]⟩        -- sc
-  | [115, 99, 110] => .ok ⟨[115, 99], [.nums (popColorComponents s []).1]⟩   -- scn
-  | [71] => ofOpt (numOp [71] 1 s)                  -- G
-  | [103] => ofOpt (numOp [103] 1 s)                -- g
-  | [82, 71] => ofOpt (numOp [82, 71] 3 s)          -- RG
-  | [114, 103] => ofOpt (numOp [114, 103] 3 s)      -- rg
-  | [75] => ofOpt (numOp [75] 4 s)                  -- K
-  | [107] => ofOpt (numOp [107] 4 s)                -- k
-  | [115, 104] => ofOpt (nameOp [115, 104] s)       -- sh
-  | [68, 111] => ofOpt (nameOp [68, 111] s)         -- Do
-  | [66, 77, 67] => ofOpt (nameOp [66, 77, 67] s)   -- BMC
-  | [66, 68, 67] => ofOpt (propsOp [66, 68, 67] s)  -- BDC
-  | [69, 77, 67] => .ok ⟨[69, 77, 67], []⟩          -- EMC
-  | [77, 80] => ofOpt (nameOp [77, 80] s)           -- MP
-  | [68, 80] => ofOpt (propsOp [68, 80] s)          -- DP
-  | [66, 88] => .ok ⟨[66, 88], []⟩                  -- BX
-  | [69, 88] => .ok ⟨[69, 88], []⟩                  -- EX
-  | [66, 73] => .inlineImage                        -- BI
-  | _ => .skip
+           | some es => some ⟨[100], [.nums es, phase]⟩
+           | none => none)
+        | none => none)
+     | none => none)
+  | [114, 105] => (nameOp [114, 105] s)       -- ri
+  | [105] => (numOp [105] 1 s)                -- i
+  | [103, 115] => (nameOp [103, 115] s)       -- gs
+  | [109] => (numOp [109] 2 s)                -- m
+  | [108] => (numOp [108] 2 s)                -- l
+  | [99] => (numOp [99] 6 s)                  -- c
+  | [118] => (numOp [118] 4 s)                -- v
+  | [121] => (numOp [121] 4 s)                -- y
+  | [104] => some ⟨[104], []⟩                        -- h
+  | [114, 101] => (numOp [114, 101] 4 s)      -- re
+  | [83] => some ⟨[83], []⟩                          -- S
+  | [115] => some ⟨[115], []⟩                        -- s
+  | [102] => some ⟨[102], []⟩                        -- f
+  | [70] => some ⟨[102], []⟩                         -- F = Fill
+  | [102, 42] => some ⟨[102, 42], []⟩                -- f*
+  | [66] => some ⟨[66], []⟩                          -- B
+  | [66, 42] => some ⟨[66, 42], []⟩                  -- B*
+  | [98] => some ⟨[98], []⟩                          -- b
+  | [98, 42] => some ⟨[98, 42], []⟩                  -- b*
+  | [110] => some ⟨[110], []⟩                        -- n
+  | [87] => some ⟨[87], []⟩                          -- W
+  | [87, 42] => some ⟨[87, 42], []⟩                  -- W*
+  | [67, 83] => (nameOp [67, 83] s)           -- CS
+  | [99, 115] => (nameOp [99, 115] s)         -- cs
+  | [83, 67] => some ⟨[83, 67], [.nums (popColorComponents s []).1]⟩          -- SC
+  | [83, 67, 78] => some ⟨[83, 67], [.nums (popColorComponents s []).1]⟩      -- SCN
+  | [115, 99] => some ⟨[115, 99], [.nums (popColorComponents s []).1]⟩        -- sc
+  | [115, 99, 110] => some ⟨[115, 99], [.nums (popColorComponents s []).1]⟩   -- scn
+  | [71] => (numOp [71] 1 s)                  -- G
+  | [103] => (numOp [103] 1 s)                -- g
+  | [82, 71] => (numOp [82, 71] 3 s)          -- RG
+  | [114, 103] => (numOp [114, 103] 3 s)      -- rg
+  | [75] => (numOp [75] 4 s)                  -- K
+  | [107] => (numOp [107] 4 s)                -- k
+  | [115, 104] => (nameOp [115, 104] s)       -- sh
+  | [68, 111] => (nameOp [68, 111] s)         -- Do
+  | [66, 77, 67] => (nameOp [66, 77, 67] s)   -- BMC
+  | [66, 68, 67] => (propsOp [66, 68, 67] s)  -- BDC
+  | [69, 77, 67] => some ⟨[69, 77, 67], []⟩          -- EMC
+  | [77, 80] => (nameOp [77, 80] s)           -- MP
+  | [68, 80] => (propsOp [68, 80] s)          -- DP
+  | [66, 88] => some ⟨[66, 88], []⟩                  -- BX
+  | [69, 88] => some ⟨[69, 88], []⟩                  -- EX
+  | _ => none
+
+def kBI : List Nat := [66, 73]
 
 /-! ### inline images (`parse_inline_image`) -/
 
@@ -688,10 +679,8 @@ def parseOperators : Nat → List Token → Stack → Option (List Parsed)
   | 0, _, _ => some []
   | _, [], _ => some []
   | fuel + 1, .operator op :: r, stack =>
-    match parseOperator op stack with
-    | .ok p => (parseOperators fuel r []).map (p :: ·)
-    | .skip => parseOperators fuel r []
-    | .inlineImage =>
+    if op == kBI then
+      -- `BI`: `parse_inline_image` works on the token stream
       let ps := inlineParams r
       match ps.2 with
       | .inlineData d :: r' =>
@@ -702,6 +691,10 @@ def parseOperators : Nat → List Token → Stack → Option (List Parsed)
         | some (d, r'') =>
           (parseOperators fuel r'' []).map (⟨[66, 73], [.inlineParams ps.1, .str d]⟩ :: ·)
         | none => none
+    else
+      match parseOp op stack with
+      | some p => (parseOperators fuel r []).map (p :: ·)
+      | none => parseOperators fuel r []
   | fuel + 1, t :: r, stack => parseOperators fuel r (t :: stack)
 
 /-- `ContentParser::parse` / `parse_content` -/
